@@ -300,6 +300,12 @@ def check_case(case):
         if cands:
             for j in range(k2 % 3):
                 holes.add(cands[(k3 + 7 * j) % len(cands)])
+        # fully general headers (they match OTHER statements of the same kind, which is where the
+        # else-clause / bound comparison of the matcher matters)
+        if is_stmt and isinstance(node, LoopIR.If) and k3 % 2 == 0:
+            holes = {(("cond", None),)} | ({("orelse",)} if node.orelse else set())
+        elif is_stmt and isinstance(node, LoopIR.For) and k3 % 4 == 1:
+            holes = {(("lo", None),), (("hi", None),)}
         try:
             pat = r_s(node, holes) if is_stmt else r_e(node, holes, ())
         except Skip:
@@ -384,7 +390,9 @@ def check_case(case):
 
 def case_strategy():
     pat = st.tuples(st.integers(0, 60), st.integers(0, 8), st.integers(0, 30), st.integers(0, 8)).map(list)
-    return st.fixed_dictionaries({"prog": programs(max_stmts=12), "pats": st.lists(pat, min_size=1, max_size=6)})
+    from ..gen.templates import programs_or_templates
+
+    return st.fixed_dictionaries({"prog": programs_or_templates(20, max_stmts=12), "pats": st.lists(pat, min_size=1, max_size=6)})
 
 
 def run(ctx):
